@@ -6,7 +6,12 @@
 //!   def NAME int I | flt BITS | bool 0/1 | char CP | str CP,CP.. | sym CP,CP.. | void | rat N D | bytes B,B..
 //!   def NAME list A.. | pair A B | vec A.. | mvec A.. | struct TAG A.. | box A | map K V K V.. | set A..
 //!        -> `def NAME <kind> <args>`; for map/set the entries the real object has, in the order in
-//!           which the real object iterates (that is the order `equal?` and `Hash` see)
+//!           which the real object iterates (that is the order `equal?` and `Hash` see); for lists
+//!           `def NAME list E.. | STORE IDX NEXT`: what the short cuts of `equal?` see of the real list
+//!           (element storage of the first node, index, next node; pointers interned as small numbers)
+//!   def NAME lx <Steel expression over defined names that yields a list>   (append, cdr, take, reverse ..)
+//!        -> `def NAME list E.. | STORE IDX NEXT` with the elements the real list has, or
+//!           `def NAME alias OTHER` if the result IS the list OTHER (same head cell)
 //!   eq A B    -> `eq <equal? through the engine> <Rust == on the extracted values>`
 //!   hq A B    -> `hq <bool>`    the two values have the same hash (fixed-key hasher)
 //!   key A B   -> `key <(hash-contains? (hash A 0) B)> <(hashset-contains? (hashset A) B)>`
@@ -14,7 +19,7 @@
 //!   reset     -> `reset` (forgets the names; the engine is kept)
 //! A panic in the real code is caught and printed as `panic <msg>` for that line.
 use std::collections::hash_map::DefaultHasher;
-use std::collections::HashSet;
+use std::collections::{HashMap, HashSet};
 use std::hash::{Hash, Hasher};
 use std::io::{BufRead, Write};
 use std::panic::{catch_unwind, AssertUnwindSafe};
@@ -26,6 +31,7 @@ struct H {
     engine: Engine,
     names: Vec<(String, SteelVal)>,
     structs: HashSet<String>,
+    ptrs: HashMap<usize, usize>,
 }
 
 fn cps(s: &str) -> String {
@@ -108,6 +114,43 @@ impl H {
         self.engine.extract_value(name).map_err(|e| format!("{e}"))
     }
 
+    fn intern(&mut self, p: usize) -> usize {
+        let n = self.ptrs.len() + 1;
+        *self.ptrs.entry(p).or_insert(n)
+    }
+
+    /// ` | STORE IDX NEXT` of a real list
+    fn list_sig(&mut self, v: &SteelVal) -> String {
+        if let SteelVal::ListV(l) = v {
+            let (store, idx) = l.identity_tuple();
+            let store = self.intern(store);
+            let next = match l.next_ptr_as_usize() {
+                Some(p) => self.intern(p),
+                None => 0,
+            };
+            format!(" | {store} {idx} {next}")
+        } else {
+            String::new()
+        }
+    }
+
+    /// an already defined list with the same head cell
+    fn same_cell(&self, v: &SteelVal) -> Option<String> {
+        if let SteelVal::ListV(l) = v {
+            if l.is_empty() {
+                return None;
+            }
+            for (n, w) in &self.names {
+                if let SteelVal::ListV(m) = w {
+                    if !m.is_empty() && m.as_ptr_usize() == l.as_ptr_usize() {
+                        return Some(n.clone());
+                    }
+                }
+            }
+        }
+        None
+    }
+
     fn def(&mut self, name: &str, kind: &str, args: &[&str]) -> Result<String, String> {
         let joined = args.join(" ");
         let val = match kind {
@@ -163,6 +206,7 @@ impl H {
                 self.define_src(name, format!("(bytes {bs})"))?
             }
             "list" => self.define_src(name, format!("(list {joined})"))?,
+            "lx" => self.define_src(name, joined.clone())?,
             "pair" => self.define_src(name, format!("(cons {joined})"))?,
             "vec" => self.define_src(name, format!("(immutable-vector {joined})"))?,
             "mvec" => self.define_src(name, format!("(vector {joined})"))?,
@@ -196,11 +240,25 @@ impl H {
                 let parts: Vec<String> = s.iter().map(|k| self.resolve(k)).collect();
                 format!("def {name} set {}", parts.join(" "))
             }
+            (SteelVal::ListV(l), "lx") => {
+                if let Some(other) = self.same_cell(&val) {
+                    self.names.push((name.to_string(), val));
+                    return Ok(format!("def {name} alias {other}"));
+                }
+                let parts: Vec<String> = l.iter().map(|k| self.resolve(k)).collect();
+                let sig = self.list_sig(&val);
+                format!("def {name} list {}{sig}", parts.join(" "))
+            }
+            (SteelVal::ListV(_), "list") => {
+                let sig = self.list_sig(&val);
+                format!("def {name} list {joined}{sig}")
+            }
             _ => format!("def {name} {kind} {joined}"),
         };
         // the kind that was built must be the kind that was asked for
         let ok = match (kind, &val) {
             ("list", SteelVal::ListV(_))
+            | ("lx", SteelVal::ListV(_))
             | ("pair", SteelVal::Pair(_))
             | ("vec", SteelVal::VectorV(_))
             | ("mvec", SteelVal::MutableVector(_))
@@ -213,13 +271,13 @@ impl H {
             | ("int", SteelVal::IntV(_))
             | ("int", SteelVal::BigNum(_)) => true,
             ("box", SteelVal::Boxed(_)) | ("box", SteelVal::HeapAllocated(_)) => true,
-            ("list", _) | ("pair", _) | ("vec", _) | ("mvec", _) | ("struct", _) | ("map", _)
+            ("list", _) | ("lx", _) | ("pair", _) | ("vec", _) | ("mvec", _) | ("struct", _) | ("map", _)
             | ("set", _) | ("rat", _) | ("bytes", _) | ("int", _) | ("box", _) => false,
             _ => true,
         };
         self.names.push((name.to_string(), val));
         if ok {
-            Ok(out.trim_end().to_string())
+            Ok(out.trim_end().replace("  ", " "))
         } else {
             Err(format!("built a different kind for {kind}"))
         }
@@ -281,7 +339,7 @@ fn main() {
     if std::env::var_os("C11_PANIC_VERBOSE").is_none() {
         std::panic::set_hook(Box::new(|_| {}));
     }
-    let mut h = H { engine: Engine::new(), names: Vec::new(), structs: HashSet::new() };
+    let mut h = H { engine: Engine::new(), names: Vec::new(), structs: HashSet::new(), ptrs: HashMap::new() };
     let stdin = std::io::stdin();
     let stdout = std::io::stdout();
     for l in stdin.lock().lines() {
